@@ -115,9 +115,10 @@ Init_Clobber ==
 Init_ClobberSame ==
   /\ cfg \in CfgsPlain
   /\ dirs = BaseDirs
-  /\ \E pa \in 1 .. 4, pb \in 1 .. 4, third \in BOOLEAN :
+  \* samedate: trashed within the same second - two entries that print alike are still two entries, with two indices
+  /\ \E pa \in 1 .. 4, pb \in 1 .. 4, third \in BOOLEAN, samedate \in BOOLEAN :
        items = {[t |-> "home", o |-> 8 + pa, r |-> "R", d |-> "d", n |-> "a", date |-> 0],
-                [t |-> "home", o |-> 4 + pb, r |-> "R", d |-> "d", n |-> "a", date |-> 1]}
+                [t |-> "home", o |-> 4 + pb, r |-> "R", d |-> "d", n |-> "a", date |-> IF samedate THEN 0 ELSE 1]}
                \cup (IF third THEN {[t |-> "t2:V1", o |-> 13, r |-> "V1", d |-> "d", n |-> "b", date |-> 2]} ELSE {})
   /\ live = {}
   /\ tex = {"home", "t2:V1"} /\ orph = {} /\ strays = {} /\ junk = {}
@@ -202,14 +203,15 @@ Next_EmptyConsent ==
 -----------------------------------------------------------------------------
 (* C12: trash-rm patterns; C13: trash-restore scope, order and index sets             *)
 
-Init_Many ==
+\* occ: the original location of the first entry has been taken again since - by a symbolic link (trash-rm matches the
+\* RECORDED name, whatever lives there now)
+Init_ManyBase(occ) ==
   /\ cfg \in {[mounted |-> m, top |-> TopOn("V1", x), altfile |-> {}, xdg |-> "set", home |-> "set", hlink |-> "none", kind |-> KindsFDLX] :
                   m \in {{"R", "V1"}, {"R", "H", "V1"}, {"R", "V1", "V2"}}, x \in {"absent", "sticky"}}
   /\ dirs \in {BaseDirs, TopDirs \cup {[r |-> "R", d |-> "d"]}}
-  /\ live = {}
   /\ tex = {"home", "t2:V1"} \cup (IF cfg.top["V1"] = "sticky" THEN {"t1:V1"} ELSE {})
   /\ \E v \in 1 .. 3 :
-       items = CASE v = 1 -> {[t |-> "home", o |-> 1, r |-> "R", d |-> "d", n |-> "a", date |-> 2],
+     /\ items = CASE v = 1 -> {[t |-> "home", o |-> 1, r |-> "R", d |-> "d", n |-> "a", date |-> 2],
                               [t |-> "home", o |-> 2, r |-> "R", d |-> "de", n |-> "a", date |-> 1],
                               [t |-> "t2:V1", o |-> 3, r |-> "V1", d |-> "d", n |-> "a", date |-> 1],
                               [t |-> "t2:V1", o |-> 4, r |-> "V1", d |-> "top", n |-> "b", date |-> 0]}
@@ -220,9 +222,12 @@ Init_Many ==
                               [t |-> "home", o |-> 2, r |-> "R", d |-> "d", n |-> "b", date |-> 1],
                               [t |-> "t2:V1", o |-> 3, r |-> "V1", d |-> "d", n |-> "a", date |-> 1],
                               [t |-> "t2:V1", o |-> 6, r |-> "V1", d |-> "d", n |-> "b", date |-> 2]}
+     /\ live = IF occ THEN {[r |-> i.r, d |-> i.d, n |-> i.n, o |-> 7] : i \in {x \in items : x.o = 1}} ELSE {}
   /\ orph = {} /\ junk = {}
   /\ strays \in {{}, {[t |-> "home", id |-> 1, r |-> "R", d |-> "d", n |-> "b", date |-> 4]}}
   /\ clock = 5 /\ purged = {} /\ out = [cmd |-> "init"]
+Init_Many == Init_ManyBase(FALSE)
+Init_ManyOcc == Init_ManyBase(TRUE)
 Next_Rm == \E p \in PatSet : (p.k = "path" => p.r \in {"R", "V1"}) /\ Rm(p) /\ Emit
 FromsAll == IF GenLevel >= 2
             THEN [k : {"root"}] \cup [k : {"dir"}, r : {"R", "V1", "H"}, d : Dirs] \cup [k : {"entry"}, r : {"R", "V1"}, d : {"d", "de"}, n : Names]
